@@ -245,6 +245,51 @@ def reporter_signature(ev, rl, fkey=None):
     return [(r, tuple(sorted(v))) for r, v in sorted(out.items())]
 
 
+def activation(ctx, tag, A, ev, rl, fkey):
+    """which chains the reporter watches.  Completion is counted only for chains in the table of active bars, so every chain must
+    enter that table exactly once: the table starts with chains 0..m-1, the activation counter starts at m, and a finished entry is
+    replaced by the chain the counter names BEFORE the counter is stepped (storing the stepped value skips a chain: it is never
+    counted and the reporter never stops)."""
+    if fkey is None:
+        ctx.unknown('C10.activation.' + tag, A, 'active-table', why='finished counter not identified', sp=rl.sp)
+        return
+    inner = [ls for ls in ev.vf.loops if ls.ctx == (rl.uid,)]
+    heads = {v: k for k, v in rl.lh.items()}
+    akey = None
+    for ls in inner:
+        for k in ls.lh:
+            if keyrepr(k) == keyrepr(fkey) and isinstance(ls.next.get(k), T.Tm):
+                for x in T.subterms(ls.next[k]):
+                    if T.is_app(x, 'proj0') and T.is_app(x[2][0], 'index') and x[2][0][2][0] in heads:
+                        akey = heads[x[2][0][2][0]]
+    if akey is None:
+        ctx.unknown('C10.activation.' + tag, A, 'active-table', why='the table of watched chains (read by the completion count) was not identified', sp=rl.sp)
+        return
+    a0 = strip_eff(rl.init.get(akey)) if isinstance(rl.init.get(akey), T.Tm) else None
+    kk = S('k#act')
+    ok_init = a0 is not None and T.is_app(a0, 'comp') and T.proj(index_term(a0, kk), 0) is kk
+    # the activation counter: stepped by one under the same condition under which an entry of the table is overwritten
+    ok_rep, found = False, 'no replacement of a table entry found'
+    for ls in inner:
+        ak = [k for k in ls.lh if keyrepr(k) == keyrepr(akey)]
+        if not ak or not isinstance(ls.next.get(ak[0]), T.Tm):
+            continue
+        nx = ls.next[ak[0]]
+        if nx[0] == 'ite' and T.is_app(nx[2], 'upd') and nx[2][2][0] is ls.lh[ak[0]] and nx[3] is ls.lh[ak[0]]:
+            stored = T.proj(nx[2][2][2], 0)
+            cnt = [k for k in ls.lh if k is not ak[0] and isinstance(ls.next.get(k), T.Tm) and ls.next[k] is T.ite(nx[1], T.add(ls.lh[k], T.ONE), ls.lh[k])]
+            found = 'entry := (%s, ..) under %s; counters stepped under the same condition: %s' % (show(stored), show(nx[1])[:120], [keyrepr(k) for k in cnt])
+            if len(cnt) == 1 and stored is ls.lh[cnt[0]]:
+                ck = [k for k in rl.lh if keyrepr(k) == keyrepr(cnt[0])]
+                bound = any(c is T.cmp('lt', ls.lh[cnt[0]], T.app('len', x)) or c is T.cmp('lt', ls.lh[cnt[0]], x) for c in conjuncts(nx[1]) for x in T.subterms(c))
+                ok_rep = bool(ck) and a0 is not None and rl.init[ck[0]] is seq_len(a0) and bound
+                found += '; counter starts at %s' % (show(rl.init[ck[0]]) if ck else '?')
+    ctx.check('C10.activation.' + tag, A, 'active-table', ok_init and ok_rep,
+              expected='watched chains start as 0..m-1 with the activation counter at m; a finished entry is replaced by (counter, ..) and the counter stepped by one under one and the same condition (counter < number of chains), the stored index being the counter BEFORE the step',
+              found=('initial table %s; ' % (show(a0)[:80] if a0 is not None else '?')) + found, sp=rl.sp,
+              why='completion is counted only for watched chains: a chain that never enters the table is never counted and the reporter (hence run_progress) never returns')
+
+
 def find_spawn_closure(ctx, body):
     out = []
 
@@ -332,6 +377,7 @@ def reporters(ctx, nc, nd):
                         if len(eqs) == 1 and stats_n and eqs[0] is T.cmp('eq', stats_n[0], total) and all(T.is_app(c) and c[1].startswith('is:') for c in rest):
                             okfin = True
         sigs[tag] = reporter_signature(ev, rl, fkey)
+        activation(ctx, tag, A, ev, rl, fkey)
         ctx.check('C10.finished_guard.' + tag, A, 'finished-guard', okfin, expected='n_finished += 1 exactly when the most recent stats of an active chain have n == n_collect + n_discard',
                   found='counter %s' % (keyrepr(fkey) if fkey else 'not identified'), sp=rl.sp, why='completion accounting must match the final message sent by the workers')
     if len(sigs) == 2:
